@@ -58,7 +58,9 @@ class Armorable(metaclass=abc.ABCMeta):
                           # RFC 4880 section 7: one or more Hash armor headers (none at all if only MD5 is used),
                           # each a comma-delimited list, then exactly one empty line that is not part of the text
                           (?P<hashes>(?:Hash:[^\r\n]*(?:\r?\n))*)[ \t]*(?:\r?\n)
-                          (?P<cleartext>(.*\r?\n)*(.*?(?=\r?\n-{5})))(?:\r?\n)
+                          # (lines of the text that begin with a dash are dash-escaped, so the first armor header line
+                          #  ends the text: it must not run on to a later armored block of the input)
+                          (?P<cleartext>((?!-{5}BEGIN\ PGP\ ).*\r?\n)*(.*?(?=\r?\n-{5})))(?:\r?\n)
                          )?
                          # armor header line; capture the variable part of the magic text
                          # (only white space may follow an armor header line or tail line, RFC 4880 6.2)
